@@ -21,9 +21,11 @@ def flat(M):
 
 def run(tier):
     rep = Report("C21", tier, "proof", RULE)
-    rep.trusted += ["clang 14 code generation and -O2 (thorough: cross-checked with -O1)", "bin/ir2json, lib/absint.py, lib/poly.py"]
+    # thorough: a second optimisation pipeline as a cross-check of the lowering. -O3 rather than -O1: the moduli classes have a
+    # virtual interface that -O1 does not devirtualise (the call goes through the vtable, outside the interpreted fragment)
+    rep.trusted += ["clang 14 code generation and -O2 (thorough: cross-checked with -O3)", "bin/ir2json, lib/absint.py, lib/poly.py"]
     drv = os.path.join(VERIF, "drivers", "c21_moduli.cxx")
-    for opt in ["-O2"] + (["-O1"] if tier == "thorough" else []):
+    for opt in ["-O2"] + (["-O3"] if tier == "thorough" else []):
         P.reset_registry()
         mod = lower_driver(drv, os.path.join(OUT, "C21"), "c21" + opt, opt=opt)
         unwritten = {}
